@@ -141,3 +141,378 @@ Proof.
   assert (g = [65]) by (cbn in Hin; intuition congruence). subst g.
   change (add_count [65] i) with (65 :: 32 :: count_str i). vm_compute. split; discriminate.
 Qed.
+
+(** * Roland S-7xx: one sample's directory record (32 bytes) / parameter record (48 bytes)
+
+    Model: RolandEntries.v - the parse of the sample entries a performance references, from
+    the image bytes, for any table geometry [ly] with [layout_ok ly] (FAT area, sample
+    directory table, sample parameter table, cluster 2 in that order; [real_layout] is the
+    format's and satisfies it).  [damaged_sample ly img img' k]: [img'] has the length of
+    [img] and the same byte everywhere outside the two records of sample [k] - inside them
+    ANY bytes.  No bound on the image, the index list or the table size. *)
+From SE Require Import Stream StreamProofs Roland RolandProofs RolandChainProofs NamesRemovalProofs
+                       RolandEntries RolandEntriesProofs RolandNoEscapeProofs.
+
+Theorem roland_real_layout_ok : layout_ok real_layout.
+Proof. exact real_layout_ok_lemma. Qed.
+Print Assumptions roland_real_layout_ok.
+
+(** T1.  The records of two different samples are disjoint byte ranges (directory against
+    directory, parameter against parameter), no directory record meets a parameter record,
+    and every record lies behind the FAT area and before cluster 2. *)
+Theorem roland_records_disjoint : forall ly i j a,
+  layout_ok ly -> 0 <= i < ly_max ly -> 0 <= j < ly_max ly ->
+  (i <> j -> in_dir_rec ly i a -> ~ in_dir_rec ly j a) /\
+  (i <> j -> in_par_rec ly i a -> ~ in_par_rec ly j a) /\
+  (in_dir_rec ly i a -> ~ in_par_rec ly j a) /\
+  (in_dir_rec ly i a \/ in_par_rec ly i a ->
+     ly_fat ly + 2 * ly_nfat ly <= a < ly_doff ly + 2 * ly_L ly).
+Proof. exact roland_records_disjoint_lemma. Qed.
+Print Assumptions roland_records_disjoint.
+(** ... and, at the format's addresses, outside every record of the four other tables
+    (volume, performance, patch, partial: the records through which the sample is reached, so
+    that the list of referenced samples itself does not depend on a sample record). *)
+Theorem roland_sample_records_apart : forall k m i a,
+  k <> KSample -> 0 <= m < max_num k -> 0 <= i < max_num KSample ->
+  in_dir_rec real_layout i a \/ in_par_rec real_layout i a ->
+  ~ (dir_offset k m <= a < dir_offset k m + DIR_ENTRY_SIZE) /\
+  ~ (par_offset k m <= a < par_offset k m + par_size k).
+Proof. exact roland_sample_records_apart_lemma. Qed.
+Print Assumptions roland_sample_records_apart.
+
+(** T2.  Isolation of one reference: the outcome of parsing sample [j <> k] - the entry with
+    its names, start cluster, cluster_top, loop mode, points, frequency; or the error that
+    drops it; then the cluster list get_file returns, or what it raises - is the same in the
+    damaged image.  ([j] arbitrary: negative, past the table.) *)
+Theorem roland_entry_isolation : forall ly img img' k j,
+  layout_ok ly -> 0 <= k < ly_max ly -> damaged_sample ly img img' k -> j <> k ->
+  parse_sample_entry ly img' j = parse_sample_entry ly img j /\
+  forall N links, sample_ref ly N links img' j = sample_ref ly N links img j /\
+                  kept_ref ly N links img' j = kept_ref ly N links img j.
+Proof. exact roland_entry_isolation_lemma. Qed.
+Print Assumptions roland_entry_isolation.
+
+(** T3.  The listing.  For ANY list of references (the damaged sample may be referenced by
+    several patches): if the original image lists [L], the damaged image either lists [L']
+    with the entries of all other samples unchanged, in order - or its listing fails, and then
+    with a failure of the damaged sample's OWN reference that the tolerant loop does not
+    swallow (only what get_file raises qualifies: RequestedInvalidSector /
+    InvalidFatDefinition, which the format's 65536-entry table cannot produce for a 16-bit
+    start cluster; a record's own parse errors are all swallowed: [kept_ref]). *)
+Theorem roland_listing_isolation : forall ly N links img img' k idx L,
+  layout_ok ly -> 0 <= k < ly_max ly -> damaged_sample ly img img' k ->
+  entries_of ly N links img idx = Ok L ->
+  (exists L', entries_of ly N links img' idx = Ok L' /\ other_entries k L' = other_entries k L)
+  \/ (In k idx /\ escapes (sample_ref ly N links img' k) = true /\
+      is_ok (entries_of ly N links img' idx) = false).
+Proof. exact roland_listing_isolation_lemma. Qed.
+Print Assumptions roland_listing_isolation.
+(** The failure case cannot arise with the link table of an accepted FAT: get_path from ANY
+    start cluster inside the table succeeds (every installed link is the raw link of a
+    cluster that heads a raw path inside the table, of at most N clusters, to an end mark) -
+    for every table of non-negative words, any size. *)
+Theorem roland_get_file_never_raises : forall fat,
+  Forall (fun w => 0 <= w) fat ->
+  forall ver links entry top,
+    roland_decode fat = Ok (ver, links) -> 0 <= entry < zlen fat ->
+    exists secs, roland_get_file (zlen fat) links entry top = Ok secs.
+Proof. exact roland_get_file_never_fails. Qed.
+Print Assumptions roland_get_file_never_raises.
+(** Hence, for images of bytes, a FAT of at least 65536 words (the start cluster is a 16-bit
+    field) that the decoder accepts, and the decoded link table: the listing of ANY index list
+    never fails, whatever the sample records hold ... *)
+Theorem roland_listing_never_fails : forall ly img ver links img2 idx,
+  byte_image img -> 65536 <= ly_nfat ly ->
+  roland_decode (fat_words ly img) = Ok (ver, links) -> byte_image img2 ->
+  exists L, entries_of ly (ly_nfat ly) links img2 idx = Ok L.
+Proof. exact entries_of_never_fails_lemma. Qed.
+Print Assumptions roland_listing_never_fails.
+(** ... and T3 holds without the failure case: the damaged image has the same FAT, both
+    listings succeed, and the entries of all other samples are the same, in order. *)
+Theorem roland_listing_isolation_total : forall ly img img' k idx ver links,
+  layout_ok ly -> 0 <= k < ly_max ly -> damaged_sample ly img img' k ->
+  byte_image img -> byte_image img' -> 65536 <= ly_nfat ly ->
+  roland_decode (fat_words ly img) = Ok (ver, links) ->
+  roland_decode (fat_words ly img') = Ok (ver, links) /\
+  exists L L', entries_of ly (ly_nfat ly) links img idx = Ok L /\
+               entries_of ly (ly_nfat ly) links img' idx = Ok L' /\
+               other_entries k L' = other_entries k L.
+Proof. exact roland_listing_isolation_total_lemma. Qed.
+Print Assumptions roland_listing_isolation_total.
+(** (the format's geometry has the 65536 words) *)
+Example roland_real_layout_fat_size : 65536 <= ly_nfat real_layout.
+Proof. vm_compute. congruence. Qed.
+
+(** The same with the damaged sample referenced once, in the form of [akai_entry_isolation]:
+    both listings are A ++ x ++ B / A ++ x' ++ B with the same A and B, and x, x' hold at
+    most one entry (the damaged sample's: kept, changed or dropped). *)
+Theorem roland_listing_entrywise : forall ly N links img img' k pre post A B x x',
+  layout_ok ly -> 0 <= k < ly_max ly -> damaged_sample ly img img' k ->
+  ~ In k pre -> ~ In k post ->
+  entries_of ly N links img pre = Ok A -> entries_of ly N links img post = Ok B ->
+  kept_ref ly N links img k = Ok x -> kept_ref ly N links img' k = Ok x' ->
+  entries_of ly N links img (pre ++ k :: post) = Ok (A ++ x ++ B)
+  /\ entries_of ly N links img' (pre ++ k :: post) = Ok (A ++ x' ++ B)
+  /\ (length x <= 1)%nat /\ (length x' <= 1)%nat.
+Proof. exact roland_listing_decompose_lemma. Qed.
+Print Assumptions roland_listing_entrywise.
+
+(** T3, names.  The names `ls` prints / `export` writes for the files of a performance
+    (programs, then samples) come from sanitize_names over all of them.  (a) The damaged
+    sample still parses, with entry [x'] instead of [x]: under the two conditions of
+    [sibling_names_stable_under_one_change] (old and new candidate differ from every other
+    candidate; neither is a counted form of a candidate occurring twice among the others)
+    every program and every other sample is listed under the name it had.  The namesake case
+    is the design-inherent finding D15. *)
+Theorem roland_listed_names_stable : forall f progs A B x x' names names',
+  let cand := fun n : list Z => f n true in
+  let others_c := map cand (progs ++ map entry_name (A ++ B)) in
+  ~ In (cand (entry_name x)) others_c -> ~ In (cand (entry_name x')) others_c ->
+  (forall g i, (2 <= count_occ_name g others_c)%nat -> 2 <= i ->
+     add_count g i <> cand (entry_name x) /\ add_count g i <> cand (entry_name x')) ->
+  perf_listed_names f progs (A ++ x :: B) = Ok names ->
+  perf_listed_names f progs (A ++ x' :: B) = Ok names' ->
+  forall j, j <> (length progs + length A)%nat -> nth_error names j = nth_error names' j.
+Proof. exact roland_listed_names_lemma. Qed.
+Print Assumptions roland_listed_names_stable.
+(** (b) The damaged sample is DROPPED (its record no longer parses; or, read the other way,
+    it did not parse and now does): the names of all the others are those of the listing
+    without it, under the same conditions on its one candidate.  General form, for any
+    directory: *)
+Theorem sibling_names_stable_under_removal :
+  forall f pre e post names names0,
+    let cand := fun x : list Z * bool => f (fst x) (snd x) in
+    let others := map cand (pre ++ post) in
+    ~ In (cand e) others ->
+    (forall g i, (2 <= count_occ_name g others)%nat -> 2 <= i -> add_count g i <> cand e) ->
+    sanitize_names f (pre ++ e :: post) = Ok names ->
+    sanitize_names f (pre ++ post) = Ok names0 ->
+    exists np v nq, names = np ++ v :: nq /\ names0 = np ++ nq /\ length np = length pre.
+Proof. exact sibling_names_removal_lemma. Qed.
+Print Assumptions sibling_names_stable_under_removal.
+Theorem roland_listed_names_dropped : forall f progs A B x names names0,
+  let cand := fun n : list Z => f n true in
+  let others_c := map cand (progs ++ map entry_name (A ++ B)) in
+  ~ In (cand (entry_name x)) others_c ->
+  (forall g i, (2 <= count_occ_name g others_c)%nat -> 2 <= i -> add_count g i <> cand (entry_name x)) ->
+  perf_listed_names f progs (A ++ x :: B) = Ok names ->
+  perf_listed_names f progs (A ++ B) = Ok names0 ->
+  exists np v nq, names = np ++ v :: nq /\ names0 = np ++ nq /\ length np = (length progs + length A)%nat.
+Proof. exact roland_listed_names_dropped_lemma. Qed.
+Print Assumptions roland_listed_names_dropped.
+
+(** T4.  Exported bytes.  Sample [j <> k] parses to [e]; its start cluster heads a raw chain
+    [c] of the (accepted) FAT, [cluster_top] lies inside the chain and the loop-mode window
+    inside the remaining clusters (the hypotheses of C02's [roland_sample_pcm_exact]).  Then
+    readall() of its exported stream returns the same bytes in the damaged image: they are a
+    function of its two records (T2), the FAT words (the FAT area precedes the tables) and
+    the bytes of the chain's clusters (numbered >= 2: behind the parameter table). *)
+Theorem roland_sample_bytes_local : forall ly img img' k j e ver links c,
+  layout_ok ly -> 0 <= k < ly_max ly -> damaged_sample ly img img' k -> j <> k ->
+  parse_sample_entry ly img j = Ok e ->
+  let top := sp_cluster_top (se_par e) in
+  let mode := sp_mode (se_par e) in
+  let p := sp_points (se_par e) in
+  roland_decode (fat_words ly img) = Ok (ver, links) -> raw_roland_chain (fat_words ly img) c ->
+  hd 0 c = de_fat_entry (se_dir e) ->
+  0 <= ly_doff ly < zlen img -> 0 <= top < zlen c ->
+  Forall (fun x => (x + 1) * ly_L ly <= zlen img - ly_doff ly) c ->
+  0 <= p_start p -> p_start p <= roland_end mode p ->
+  2 * (roland_end mode p + 1) <= ly_L ly * (zlen c - top) ->
+  sample_pcm ly img' j = sample_pcm ly img j
+  /\ sample_pcm ly img j
+     = Ok (window_bytes mode p
+             (logical (roland_file_view (ly_L ly) (ly_doff ly) (zlen img) (skipn (Z.to_nat top) c)) img)).
+Proof. exact roland_sample_bytes_local_lemma. Qed.
+Print Assumptions roland_sample_bytes_local.
+(** Not proved: the same for a sibling whose own chain is NOT a raw chain of clusters >= 2
+    (e.g. start cluster 0 or 1, whose bytes overlap the last parameter records: such a
+    sibling reads table bytes as audio, and damage to records 7808..8191 does change what it
+    exports), and for one whose read fails. *)
+
+(** Overwriting the 32 bytes of a directory record is such a damage. *)
+Theorem roland_splice_is_damage : forall ly img k rep,
+  0 <= k -> 0 <= ly_dbase ly -> zlen rep = DIR_REC -> dir_rec_offset ly k + DIR_REC <= zlen img ->
+  damaged_sample ly img (splice img (dir_rec_offset ly k) rep) k.
+Proof. exact splice_damaged_dir. Qed.
+Print Assumptions roland_splice_is_damage.
+
+Theorem roland_splice_par_is_damage : forall ly img k rep,
+  0 <= k -> 0 <= ly_pbase ly -> zlen rep = PAR_REC -> par_rec_offset ly k + PAR_REC <= zlen img ->
+  damaged_sample ly img (splice img (par_rec_offset ly k) rep) k.
+Proof. exact splice_damaged_par. Qed.
+Print Assumptions roland_splice_par_is_damage.
+
+(** Both conditions of the removal theorem are needed (names used as they are).  First
+    witness: A, A with the first removed - its candidate equals the other's: the other was
+    "A (2)" and becomes "A" (two samples that ALREADY share a name: dropping one renames the
+    other; design-inherent like D15).  Second witness: "A (2)", A, A with the first removed -
+    its candidate is the counted form of the duplicated A: the third was "A (3)" and becomes
+    "A (2)". *)
+Theorem sibling_names_removal_collision_refuted :
+  (exists pre e post names names0,
+      sanitize_names (fun n _ => n) (pre ++ e :: post) = Ok names /\ sanitize_names (fun n _ => n) (pre ++ post) = Ok names0 /\
+      In (fst e) (map fst (pre ++ post)) /\ nth_error names 1 <> nth_error names0 0)
+  /\ (exists pre e post names names0,
+      sanitize_names (fun n _ => n) (pre ++ e :: post) = Ok names /\ sanitize_names (fun n _ => n) (pre ++ post) = Ok names0 /\
+      ~ In (fst e) (map fst (pre ++ post)) /\ nth_error names 2 <> nth_error names0 1).
+Proof.
+  split.
+  - exists [], ([65], true), [([65], true)], [[65]; [65; 32; 40; 50; 41]], [[65]].
+    split; [vm_compute; reflexivity|]. split; [vm_compute; reflexivity|].
+    split; [now left|vm_compute; congruence].
+  - exists [], ([65; 32; 40; 50; 41], true), [([65], true); ([65], true)],
+      [[65; 32; 40; 50; 41]; [65]; [65; 32; 40; 51; 41]], [[65]; [65; 32; 40; 50; 41]].
+    split; [vm_compute; reflexivity|]. split; [vm_compute; reflexivity|].
+    split; [vm_compute; intuition discriminate|vm_compute; congruence].
+Qed.
+
+(** ** Non-vacuity: a scaled-down disk with a 3-sample table
+
+    FAT of 24 words at 0; directory table (3 x 32) at 48; parameter table (3 x 48) at 144;
+    clusters of 16 bytes, cluster c at 256 + 16 c (cluster 2 at 288 = end of the table);
+    samples KICK (chain 2,3,4, forward), SNARE (chain 7), HAT (chain 5,6, cluster_top 1,
+    reverse one-shot).  Damage: the directory record of SNARE overwritten (first name byte
+    0xFF: no longer ASCII). *)
+Definition ex_ly : rlayout :=
+  {| ly_max := 3; ly_dbase := 48; ly_pbase := 144; ly_fat := 0; ly_nfat := 24; ly_L := 16; ly_doff := 256 |}.
+Definition b16 (v : Z) : list Z := [v mod 256; v / 256].
+Definition b32 (v : Z) : list Z := b16 (v mod 65536) ++ b16 (v / 65536).
+Definition name16 (s : list Z) : list Z := s ++ repeat 0 (16 - length s).
+Definition ex_dir (name : list Z) (first ncl : Z) : list Z :=
+  name16 name ++ [68; 0] ++ b16 0 ++ b16 0 ++ b16 0 ++ b32 0 ++ b16 first ++ b16 ncl.
+Definition ex_par (name : list Z) (pts : list Z) (mode top ncl opt : Z) : list Z :=
+  name16 name ++ concat (map (fun a => b32 (256 * a)) pts) ++ [mode; 1; 0; 0] ++ b16 top ++ b16 ncl ++ [opt; 60; 0; 0].
+Definition ex_fatw : list Z :=
+  [FAT_AREA_ID; 0; 3; 4; FAT_END; 6; FAT_END; FAT_END] ++ repeat 0 14 ++ [FAT_V1; FAT_V1].
+Definition KICK : list Z := [75; 73; 67; 75].
+Definition SNARE : list Z := [83; 78; 65; 82; 69].
+Definition HAT : list Z := [72; 65; 84].
+Definition ex_img : list Z :=
+  concat (map b16 ex_fatw)
+  ++ ex_dir KICK 2 3 ++ ex_dir SNARE 7 1 ++ ex_dir HAT 5 2
+  ++ ex_par KICK [0; 0; 23; 0; 23] 0 0 3 1 ++ ex_par SNARE [0; 0; 7; 0; 7] 2 0 1 0 ++ ex_par HAT [0; 0; 7; 0; 7] 5 1 1 3
+  ++ map Z.of_nat (seq 1 128).
+Definition ex_rep : list Z := 255 :: repeat 7 31.
+Definition ex_img' : list Z := splice ex_img (dir_rec_offset ex_ly 1) ex_rep.
+
+Example c14_roland_example_layout : layout_ok ex_ly /\ zlen ex_img = 416 /\ fat_words ex_ly ex_img = ex_fatw.
+Proof. split; [|split]; vm_compute; intuition congruence. Qed.
+Example c14_roland_example_damage : damaged_sample ex_ly ex_img ex_img' 1 /\ ex_img' <> ex_img.
+Proof.
+  split; [|vm_compute; congruence].
+  apply roland_splice_is_damage; vm_compute; congruence.
+Qed.
+(** the listing before and after (link table = the decoded FAT): SNARE is dropped, KICK and
+    HAT keep name, cluster list and window parameters - as T2 / T3 say *)
+Example c14_roland_example_listing :
+  exists links, roland_decode (fat_words ex_ly ex_img) = Ok (1, links) /\
+    let view := fun r => match r with
+                         | Ok l => Some (map (fun x : sentry * list Z =>
+                             (entry_name x, snd x, sp_mode (se_par (fst x)), p_sus_end (sp_points (se_par (fst x))),
+                              sp_freq (se_par (fst x)))) l)
+                         | _ => None end in
+    view (entries_of ex_ly 24 links ex_img [0; 1; 2])
+    = Some [(KICK, [2; 3; 4], 0, 23, 44100); (SNARE, [7], 2, 7, 48000); (HAT, [6], 5, 7, 22050)]
+    /\ view (entries_of ex_ly 24 links ex_img' [0; 1; 2])
+    = Some [(KICK, [2; 3; 4], 0, 23, 44100); (HAT, [6], 5, 7, 22050)]
+    /\ parse_sample_entry ex_ly ex_img' 1 = Err ConstructErr
+    /\ (forall j, j <> 1 -> kept_ref ex_ly 24 links ex_img' j = kept_ref ex_ly 24 links ex_img j).
+Proof.
+  destruct (roland_decode (fat_words ex_ly ex_img)) as [[ver links]| |] eqn:E; try (vm_compute in E; discriminate).
+  assert (ver = 1) as -> by (vm_compute in E; congruence).
+  exists links. split; [reflexivity|].
+  assert (Hl : links = match roland_decode (fat_words ex_ly ex_img) with Ok t => snd t | _ => [] end)
+    by (now rewrite E).
+  cbv zeta. split; [|split; [|split]].
+  - rewrite Hl. vm_compute. reflexivity.
+  - rewrite Hl. vm_compute. reflexivity.
+  - vm_compute. reflexivity.
+  - intros j Hj.
+    apply (roland_entry_isolation ex_ly ex_img ex_img' 1 j); try assumption;
+      [apply c14_roland_example_layout|vm_compute; intuition congruence|apply c14_roland_example_damage].
+Qed.
+(** get_file on the example's table: every start cluster inside it resolves (by the theorem) *)
+Example c14_roland_example_get_file :
+  exists links, roland_decode ex_fatw = Ok (1, links) /\
+    forall entry top, 0 <= entry < 24 -> exists secs, roland_get_file 24 links entry top = Ok secs.
+Proof.
+  destruct (roland_decode ex_fatw) as [[ver links]| |] eqn:E; try (vm_compute in E; discriminate).
+  assert (ver = 1) as -> by (vm_compute in E; congruence).
+  exists links. split; [reflexivity|]. intros entry top He.
+  apply (roland_get_file_never_raises ex_fatw ltac:(repeat constructor; vm_compute; congruence) 1 links entry top E He).
+Qed.
+(** T4 on the example: HAT (j = 2; chain 5,6 minus one leading cluster, reversed) exports the
+    same 16 bytes from the damaged image - all hypotheses of the theorem hold *)
+Example c14_roland_example_bytes :
+  sample_pcm ex_ly ex_img' 2 = sample_pcm ex_ly ex_img 2
+  /\ sample_pcm ex_ly ex_img 2 = Ok [79; 80; 77; 78; 75; 76; 73; 74; 71; 72; 69; 70; 67; 68; 65; 66].
+Proof.
+  destruct (roland_decode (fat_words ex_ly ex_img)) as [[ver links]| |] eqn:E; try (vm_compute in E; discriminate).
+  pose (r := parse_sample_entry ex_ly ex_img 2). vm_compute in r.
+  match goal with r := Ok ?x |- _ => pose (e := x) end.
+  assert (Ee : parse_sample_entry ex_ly ex_img 2 = Ok e) by (vm_compute; reflexivity).
+  assert (Hc : raw_roland_chain (fat_words ex_ly ex_img) [5; 6]).
+  { apply raw_roland_chain_unfold_lemma. split; [discriminate|]. split; [|split].
+    - repeat constructor; vm_compute; congruence.
+    - intros i Hi. change (zlen [5; 6]) with 2 in Hi. assert (i = 0) as -> by lia. reflexivity.
+    - vm_compute. congruence. }
+  assert (H1 : sample_pcm ex_ly ex_img' 2 = sample_pcm ex_ly ex_img 2).
+  { eapply proj1.
+    apply (roland_sample_bytes_local ex_ly ex_img ex_img' 1 2 e ver links [5; 6]
+              (proj1 c14_roland_example_layout) ltac:(vm_compute; intuition congruence)
+              (proj1 c14_roland_example_damage) ltac:(lia) Ee E Hc);
+      try (vm_compute; intuition congruence).
+    repeat constructor; vm_compute; congruence. }
+  split; [exact H1|]. vm_compute. reflexivity.
+Qed.
+(** T3 (names) on the example: program PATCH, samples KICK, SNARE -> SNARX, HAT: the
+    conditions hold (no candidate occurs twice among the others), the listed names of the
+    others are unchanged; and with SNARE dropped the three others keep their names *)
+Example c14_roland_example_names :
+  let ent := fun name => ({| se_index := 0; se_dir := {| de_name := name; de_type := 68; de_attr := 0;
+                               de_fat_entry := 0; de_nclusters := 0 |};
+                             se_par := {| sp_name := name; sp_points := {| p_start := 0; p_sus_start := 0;
+                               p_sus_end := 0; p_rel_start := 0; p_rel_end := 0 |}; sp_fines := []; sp_mode := 0;
+                               sp_sus_enable := 0; sp_sus_tune := 0; sp_rel_tune := 0; sp_cluster_top := 0;
+                               sp_nclusters := 0; sp_sample_mode := 0; sp_freq := 48000;
+                               sp_key := from_midi_byte 60 |} |}, @nil Z) in
+  let PATCH := [80; 65; 84; 67; 72] in let SNARX := [83; 78; 65; 82; 88] in
+  perf_listed_names make_export_name [PATCH] ([ent KICK] ++ ent SNARE :: [ent HAT]) = Ok [PATCH; KICK; SNARE; HAT]
+  /\ perf_listed_names make_export_name [PATCH] ([ent KICK] ++ ent SNARX :: [ent HAT]) = Ok [PATCH; KICK; SNARX; HAT]
+  /\ perf_listed_names make_export_name [PATCH] ([ent KICK] ++ [ent HAT]) = Ok [PATCH; KICK; HAT]
+  /\ (let cand := fun n : list Z => make_export_name n true in
+      let others_c := map cand ([PATCH] ++ map entry_name ([ent KICK] ++ [ent HAT])) in
+      ~ In (cand (entry_name (ent SNARE))) others_c /\ ~ In (cand (entry_name (ent SNARX))) others_c /\
+      (forall g i, (2 <= count_occ_name g others_c)%nat -> 2 <= i ->
+         add_count g i <> cand (entry_name (ent SNARE)) /\ add_count g i <> cand (entry_name (ent SNARX)))).
+Proof.
+  cbv zeta. split; [vm_compute; reflexivity|]. split; [vm_compute; reflexivity|]. split; [vm_compute; reflexivity|].
+  split; [vm_compute; intuition discriminate|]. split; [vm_compute; intuition discriminate|].
+  intros g i Hg _. exfalso.
+  change (map _ _) with [[80; 65; 84; 67; 72]; KICK; HAT] in Hg.
+  destruct (in_dec (list_eq_dec Z.eq_dec) g [[80; 65; 84; 67; 72]; KICK; HAT]) as [H|H].
+  - cbn in H. destruct H as [<-|[<-|[<-|[]]]]; vm_compute in Hg; lia.
+  - rewrite (count_occ_name_zero g _ H) in Hg. lia.
+Qed.
+
+(** The chain hypothesis of T4 cannot be dropped: cluster numbers 0 and 1 are addressable
+    (get_file follows any 16-bit start cluster) and their bytes lie INSIDE the parameter table
+    (real geometry: cluster 0 = bytes 0x2B1000.. = parameter records 7808..8191).  A sample
+    whose directory record names start cluster 0 - a value the format never allocates; the
+    entry is itself corrupt - exports those table bytes, so damage to one of those records
+    changes what it exports.  Scaled down: KICK's start cluster set to 0 (cluster 0 = bytes
+    256..271 = the points of HAT's parameter record); HAT's parameter record overwritten. *)
+Definition ex_img0 : list Z := splice ex_img (dir_rec_offset ex_ly 0 + 28) [0; 0].
+Definition ex_img0' : list Z := splice ex_img0 (par_rec_offset ex_ly 2) (ex_par HAT [1; 2; 3; 4; 5] 0 0 1 0).
+Example c14_roland_cluster0_boundary :
+  damaged_sample ex_ly ex_img0 ex_img0' 2
+  /\ (exists e, parse_sample_entry ex_ly ex_img0 0 = Ok e /\ de_fat_entry (se_dir e) = 0)
+  /\ parse_sample_entry ex_ly ex_img0' 0 = parse_sample_entry ex_ly ex_img0 0
+  /\ sample_pcm ex_ly ex_img0 0 <> sample_pcm ex_ly ex_img0' 0
+  /\ is_ok (sample_pcm ex_ly ex_img0 0) = true /\ is_ok (sample_pcm ex_ly ex_img0' 0) = true.
+Proof.
+  split; [apply roland_splice_par_is_damage; vm_compute; congruence|].
+  split; [eexists; split; vm_compute; reflexivity|].
+  split; [vm_compute; reflexivity|]. split; [vm_compute; congruence|]. split; vm_compute; reflexivity.
+Qed.
